@@ -70,9 +70,10 @@ Proof. vm_compute. split; reflexivity. Qed.
        operands: (1,2) + (10,20)).  compileCallInternal compiles an operand inline (empty body: load v; a single
        instruction that owns no variable: push c / load v; X, X possibly a call of a user function) or as a
        function definition (jump over it; opscope id nvars 0; body; opret) called through load v; pushpc; callpc;
-     - definitions and calls of functions, `def f: body; rest` and `def f(g; h): body; rest` with filter parameters
-       (`$x` parameters are modelled in VM.v/Den.v but excluded from Compile.comp, hence from the theorem), recursion
-       included; a function body sees the variables and functions visible at its definition (lexical scoping: later
+     - definitions and calls of functions, `def f: body; rest` and `def f(g; $x; h): body; rest` with filter and value
+       parameters, recursion included.  A `$x` parameter is a filter parameter whose closure the prelude of the
+       function evaluates on the input of the call, in the environment of the call (load v; load closure; callpc;
+       store $x), the first `$` parameter in the outermost loop; a function body sees the variables and functions visible at its definition (lexical scoping: later
        rebinding of a name does not affect it), an argument `a` of `f(a)` is a closure over the environment of the
        call (pushpc captures the scope index; calling the parameter enters it with that index); in this model
        neither a function body nor an argument of a user-defined function sees a label around it.
@@ -146,4 +147,25 @@ Example C01vm_params_nonvacuous :
   option_map (fun c => fst (c01vm2.VM.run c01vm2.Natives.cnat c 2000 (c01vm2.VM.init c v))) (c01vm2.Compile.compile_raw q)
     = Some (map c01vm2.Syntax.VNum [6; 11])%Z /\
   c01vm2.Den.den c01vm2.Natives.cnat 10 q [] v = (map c01vm2.Syntax.VNum [6; 11]%Z, None).
+Proof. vm_compute. split; reflexivity. Qed.
+
+(* value parameters: the closures of the `$` parameters are evaluated by the prelude, the first one in the outermost loop,
+   in the environment of the call ($x is 5 there, 9 in the body):
+   5 as $x | def f($a; g; $b): 9 as $x | [$a, $b, g]; f(1,2; $x + .; 10,$x)   on 1  gives
+   [1,10,6] [1,5,6] [2,10,6] [2,5,6] *)
+Example C01vm_value_params_nonvacuous :
+  let num z := c01vm2.Syntax.QConst (c01vm2.Syntax.VNum z) in
+  let var x := c01vm2.Syntax.QVar x in
+  let q := c01vm2.Syntax.QBind (num 5%Z) 0%N
+             (c01vm2.Syntax.QDef 7%N [c01vm2.Syntax.PV 1%N; c01vm2.Syntax.PF 20%N; c01vm2.Syntax.PV 2%N]
+                (c01vm2.Syntax.QBind (num 9%Z) 0%N
+                   (c01vm2.Syntax.QArray (c01vm2.Syntax.QComma (c01vm2.Syntax.QComma (var 1%N) (var 2%N)) (c01vm2.Syntax.QCallF 20%N []))))
+                (c01vm2.Syntax.QCallF 7%N [c01vm2.Syntax.QComma (num 1%Z) (num 2%Z);
+                                           c01vm2.Syntax.QBinop c01vm2.Syntax.OAdd (var 0%N) c01vm2.Syntax.QId;
+                                           c01vm2.Syntax.QComma (num 10%Z) (var 0%N)])) in
+  let v := c01vm2.Syntax.VNum 1 in
+  let out := map (fun l => c01vm2.Syntax.VArr (map c01vm2.Syntax.VNum l)) [[1; 10; 6]; [1; 5; 6]; [2; 10; 6]; [2; 5; 6]]%Z in
+  option_map (fun c => fst (c01vm2.VM.run c01vm2.Natives.cnat c 2000 (c01vm2.VM.init c v))) (c01vm2.Compile.compile_raw q)
+    = Some out /\
+  c01vm2.Den.den c01vm2.Natives.cnat 10 q [] v = (out, None).
 Proof. vm_compute. split; reflexivity. Qed.
